@@ -52,10 +52,11 @@ type fsParent struct {
 	terminated      bool
 
 	listCalls int
-	lastList  []metav1.Object // what the most recent List() call returned
-	listErr   error           // the next List() call fails with this error
-	gate      chan struct{}   // non-nil: the next List() call blocks until it is closed
-	atCall    bool            // ... and returns the snapshot taken when it was called (else: when released)
+	removed   map[string]metav1.Object // per key, the object most recently removed
+	lastList  []metav1.Object          // what the most recent List() call returned
+	listErr   error                    // the next List() call fails with this error
+	gate      chan struct{}            // non-nil: the next List() call blocks until it is closed
+	atCall    bool                     // ... and returns the snapshot taken when it was called (else: when released)
 	onList    chan int
 }
 
@@ -169,6 +170,10 @@ func (p *fsParent) del(ns, name string) bool {
 		return false
 	}
 	delete(p.state, ns+"/"+name)
+	if p.removed == nil {
+		p.removed = map[string]metav1.Object{}
+	}
+	p.removed[ns+"/"+name] = o
 	if !p.terminated {
 		p.evch <- kcache.NewEvent(kcache.EventTypeDelete, o) // like the cache: the Delete carries the object it held
 	}
@@ -232,6 +237,7 @@ type fsCfg struct {
 	maxDuring          int
 	delOneIn           int // a publish is a delete with probability 1/delOneIn
 	listFailOneIn      int // 0: never; else a listing step fails with probability 1/listFailOneIn
+	readmitOneIn       int // 0: never; else a publish re-announces a removed object unchanged with this probability
 }
 
 // fsModelProp: the model covers the filtered-view property (C06) and the
@@ -257,12 +263,29 @@ type fsCaseInfo struct {
 	listFailed bool
 }
 
+// readmit: the object last removed under this key comes back unchanged (same
+// object, same version), provided the key is absent now.
+func (p *fsParent) readmit(ns, name string) metav1.Object {
+	p.mu.Lock()
+	defer p.mu.Unlock()
+	k := ns + "/" + name
+	o := p.removed[k]
+	if _, present := p.state[k]; present || o == nil {
+		return nil
+	}
+	p.state[k] = o
+	if !p.terminated {
+		p.evch <- kcache.NewEvent(kcache.EventTypeCreate, o)
+	}
+	return o
+}
+
 func TestC06_FilterSubscriptionModel(t *testing.T) {
 	cfg := fsCfg{
 		keys:      [][2]string{{"a", "p"}, {"a", "q"}, {"b", "p"}, {"b", "q"}},
 		labelSets: []map[string]string{nil, {"x": "1"}, {"x": "2"}},
 		filters:   []int{0, 1, 2, 3, 4, 5, 6, 7, 8, 9},
-		minSteps:  3, maxSteps: 16, maxInitial: 4, maxBurst: 6, maxDuring: 3, delOneIn: 4, listFailOneIn: 12,
+		minSteps:  3, maxSteps: 16, maxInitial: 4, maxBurst: 6, maxDuring: 3, delOneIn: 4, listFailOneIn: 12, readmitOneIn: 5,
 	}
 	rapid.Check(t, func(t *rapid.T) {
 		info := fsModelCase(t, fsDrawScript(fsRapidChooser{t}, cfg), rapid.Bool().Draw(t, "perturb"), rapid.Uint64().Draw(t, "pseed"))
@@ -322,9 +345,10 @@ func TestC06_FilterSubscriptionEnum(t *testing.T) {
 }
 
 type fsPub struct {
-	key    [2]string
-	del    bool
-	labels map[string]string
+	key     [2]string
+	del     bool
+	readmit bool // the parent announces again, unchanged, the object it last removed under this key
+	labels  map[string]string
 }
 
 type fsStep struct {
@@ -355,10 +379,36 @@ func fsDrawScript(ch fsChooser, cfg fsCfg) fsScript {
 		if allowDel && ch.intn("del", 0, cfg.delOneIn-1) == 0 {
 			return fsPub{key: k, del: true}
 		}
+		if allowDel && cfg.readmitOneIn > 0 && ch.intn("readmit", 0, cfg.readmitOneIn-1) == 0 {
+			return fsPub{key: k, readmit: true}
+		}
 		return fsPub{key: k, labels: cfg.labelSets[ch.intn("labels", 0, len(cfg.labelSets)-1)]}
 	}
 	for i, n := 0, ch.intn("initial", 0, cfg.maxInitial); i < n; i++ {
 		sc.initial = append(sc.initial, pub(false))
+	}
+	if cfg.readmitOneIn > 0 && ch.intn("pattern", 0, 7) == 0 {
+		// a scripted head: an object of the node's view is updated out of its filter (a filter-delete on
+		// the node), then removed by the parent, the node is refiltered to a filter that accepts the
+		// object as it last was, and the parent announces it again unchanged
+		k := cfg.keys[ch.intn("pk", 0, len(cfg.keys)-1)]
+		sc.f0 = 1 // Labels{x=1}
+		head := []fsStep{
+			{kind: "parentReady"},
+			{kind: "publish", pubs: []fsPub{{key: k, labels: map[string]string{"x": "1"}}}},
+			{kind: "publish", pubs: []fsPub{{key: k, labels: map[string]string{"x": "2"}}}},
+			{kind: "publish", pubs: []fsPub{{key: k, del: true}}},
+			{kind: "refilter", f: 2}, // Labels{x=2}
+			{kind: "publish", pubs: []fsPub{{key: k, readmit: true}}},
+		}
+		if sc.deferReady {
+			head = append([]fsStep{{kind: "refilter", f: 1}}, head...)
+		}
+		sc.steps = head
+		for i, n := 0, ch.intn("tail", 0, 4); i < n; i++ {
+			sc.steps = append(sc.steps, fsStep{kind: "publish", pubs: []fsPub{pub(true)}})
+		}
+		return sc
 	}
 	parentReady, supplied := false, !sc.deferReady
 	window := func(st *fsStep) {
@@ -521,6 +571,14 @@ func fsModelCase(t fsFailer, sc fsScript, perturb bool, pseed uint64) fsCaseInfo
 			if pb.del {
 				if p.del(k[0], k[1]) {
 					h("%s: del %s/%s", why, k[0], k[1])
+				}
+				return
+			}
+			if pb.readmit {
+				// what a filtered parent does when it is refiltered away from an object and back: Delete
+				// earlier, now a Create of the very same object at the very same version
+				if o := p.readmit(k[0], k[1]); o != nil {
+					h("%s: %s announced again, unchanged", why, objStr(o))
 				}
 				return
 			}
